@@ -9,12 +9,20 @@ from ..models import cluster as M
 from . import clcommon as C
 
 
+def ctr(c):
+    """centre coordinates as an array: a 1-frame md.Trajectory gives its (atoms, 3) frame"""
+    if hasattr(c, 'xyz'):
+        x = np.array(c.xyz)
+        return x[0] if len(x) == 1 else x
+    return np.array(c)
+
+
 class GResult:
     """A clustering result in global frame order."""
 
     def __init__(self, ci, centers, labels, distances):
         self.ci = [int(c) for c in ci]
-        self.centers = [np.array(c) for c in centers]
+        self.centers = [ctr(c) for c in centers]
         self.labels = np.asarray(labels)
         self.distances = np.asarray(distances)
 
@@ -102,14 +110,15 @@ def strided_view(X, mode):
 def run_serial(ctx, e, P, spec, X=None, poison=0, seed=1):
     X = P.X.copy() if X is None else X
     layout = spec.get('layout', 0)
-    if layout:
+    if layout and X.ndim == 2:
         X = strided_view(X, layout)          # callers hand in slices of larger arrays (every other frame, selected features)
     snap = X.copy()
     with C.Poison(ctx, poison, seed=seed):
-        res, est = ctx.sut(_call, e, spec, X, P.sut_metric())
+        Xw = P.wrap(X)
+        res, est = ctx.sut(_call, e, spec, Xw, P.sut_metric())
         res = type(res)(center_indices=[int(c) for c in res.center_indices], distances=np.array(res.distances),
-                        assignments=np.array(res.assignments), centers=[np.array(c) for c in res.centers])
-    require(C.same(X, snap), 'input_modified', 'serial %s modified its data array' % spec['algo'])
+                        assignments=np.array(res.assignments), centers=[ctr(c) for c in res.centers])
+    require(P.data_unchanged(Xw, snap), 'input_modified', 'serial %s modified its data array' % spec['algo'])
     g = GResult(res.center_indices, res.centers, res.assignments, res.distances)
     g.est = est
     g.raw = res
@@ -122,6 +131,7 @@ def run_mpi(ctx, e, P, spec, poison=0, suffix='', seed=1):
     N = P.N
     locals_ = [P.local(r) for r in range(N)]
     snaps = [x.copy() for x in locals_]
+    wrapped = [P.wrap(x) for x in locals_]
     metric = P.sut_metric()
     lengths = list(map(int, P.lengths))
 
@@ -133,10 +143,10 @@ def run_mpi(ctx, e, P, spec, poison=0, suffix='', seed=1):
             sp['random_state'] = np.random.RandomState(sp['random_state'] + 7919 * r)
         if 'warm_by_rank' in spec:
             sp['warm_local'] = spec['warm_by_rank'][r]
-        res, est = _call(e, sp, locals_[r], metric, local=True,
+        res, est = _call(e, sp, wrapped[r], metric, local=True,
                          lengths=lengths if spec['algo'] == 'kmedoids' else None)
         return dict(ci=[(int(a), int(b)) for a, b in res.center_indices], d=np.array(res.distances),
-                    a=np.array(res.assignments), centers=[np.array(c) for c in res.centers])
+                    a=np.array(res.assignments), centers=[ctr(c) for c in res.centers])
 
     with C.Poison(ctx, poison, seed=seed):
         w = C.make_world(ctx, N, poison, suffix=suffix)
@@ -155,7 +165,7 @@ def run_mpi(ctx, e, P, spec, poison=0, suffix='', seed=1):
     d = np.full(n, np.nan)
     a = np.full(n, -7, dtype=int)
     for r in range(N):
-        require(C.same(locals_[r], snaps[r]), 'input_modified', 'rank %d data array changed' % r)
+        require(P.data_unchanged(wrapped[r], snaps[r]), 'input_modified', 'rank %d data array changed' % r)
         o = outs[r]
         require(len(o['d']) == len(P.l2g[r]) and len(o['a']) == len(P.l2g[r]), 'bad_shape',
                 lambda: 'rank %d returned %d/%d values for %d local frames' % (r, len(o['d']), len(o['a']), len(P.l2g[r])))
@@ -276,8 +286,8 @@ def one_sweep(ctx, e, P, st, spec_extra, mpi, poison=0, cinds_form=0, suffix='')
 
 
 def run_serial_km(ctx, e, P, spec):
-    X = P.X.copy()
-    snap = X.copy()
+    snap = P.X.copy()
+    X = P.wrap(P.X.copy())
     sp = dict(spec)
 
     def call():
@@ -299,7 +309,7 @@ def run_serial_km(ctx, e, P, spec):
             kws['random_state'] = sp['random_state']
         return e['kmedoids'].kmedoids(X, P.sut_metric(), **kws)
     res = ctx.sut(call)
-    require(C.same(X, snap), 'input_modified', 'k-medoids modified its data array')
+    require(P.data_unchanged(X, snap), 'input_modified', 'k-medoids modified its data array')
     g = GResult(res.center_indices, res.centers, res.assignments, res.distances)
     g.raw = res
     return g
